@@ -19,6 +19,12 @@ pub fn plan(prop: &str, tier: Tier) -> Option<(&'static str, Vec<Job>)> {
             Job::new("groupcomp", if q { 30_000 } else { 1_000_000 }),
             Job::new("groups", if q { 1200 } else { 40_000 }).caches(&["off", "big"]),
         ],
+        "C09" => vec![
+            Job::new("permrules", if q { 60_000 } else { 2_000_000 }),
+            Job::new("authgate", if q { 24 } else { 300 }).workers(12),
+            Job::new("permhist", if q { 800 } else { 30_000 }),
+        ],
+        "C10" => vec![Job::new("creds", if q { 800 } else { 30_000 })],
         "C13" => vec![
             Job::new("wire", if q { 40_000 } else { 1_500_000 }),
             Job::new("catalogue", if q { 600 } else { 20_000 }).caches(&["off", "big"]),
